@@ -379,8 +379,17 @@ impl Model {
                         _ => {}
                     }
                 }
-                Ev::TimerReset { kind, .. } => {
+                Ev::TimerReset { kind, ms } => {
                     self.armed.insert(*kind);
+                    // T8: the receive-side keep-alive timer supervises a client: only the server side of a connection has
+                    // one ("a server re-arms ... and never arms it for keep-alive 0"); an object that opened this
+                    // connection as a client has no keep-alive of a peer to supervise, whatever an earlier connection had
+                    if *kind == Timer::PingreqRecv && self.path == Some(Path::Client) && matches!(self.status, St::Cg | St::Cd) && !self.unsynced {
+                        s.hit("T8-receive-timer-only-on-the-server-side");
+                        s.fail("C15", "T8-receive-timer-only-on-the-server-side", format!("call={}", call_kind(cx.call)), format!("a connection opened as a client arms the PINGREQ receive timer ({} ms): events {}", ms, evs_short(evs)));
+                    } else if *kind == Timer::PingreqRecv {
+                        s.hit("T8-receive-timer-only-on-the-server-side");
+                    }
                 }
                 Ev::TimerCancel(k) => {
                     s.hit("T1-cancel-only-armed");
@@ -733,6 +742,10 @@ impl Model {
                         self.max_recv = pkt.prop_u32(P_MPS);
                         if let Some(k) = props.iter().find_map(|p| if let (P_SKA, PVal::U16(v)) = (p.id, &p.val) { Some(*v) } else { None }) {
                             self.recv_k_ms = k as u64 * 1500;
+                        }
+                        // the server has the last word on the session's lifetime
+                        if let Some(sei) = pkt.prop_u32(P_SEI) {
+                            self.persistent = sei != 0;
                         }
                     }
                     // retransmission right after the CONNACK and before any other packet
@@ -1226,6 +1239,17 @@ impl Model {
                         s.hit("Q4-duplicate-answered-with-pubrec");
                         if status_at_frame == St::Cd && !has_err && !dup_answer {
                             s.fail("C07", "Q4-duplicate-answered-with-pubrec", String::new(), format!("duplicate QoS 2 PUBLISH id {} neither answered with PUBREC nor reported: {}", i, evs_short(evs)));
+                        }
+                        // a retransmission answered with PUBREC is an inbound exchange of THIS connection: it counts
+                        // against the Receive Maximum announced on it like any other (the handled set is older than the connection)
+                        if dup_answer && self.v5() && status_at_frame == St::Cd && !self.unsynced {
+                            if let Some(l) = self.l_recv {
+                                s.hit("F3-inbound-excess-not-delivered");
+                                if !self.inn.contains(i) && self.inn.len() >= l as usize {
+                                    s.fail("C12", "F3-inbound-excess-not-delivered", "why=duplicate-answered-beyond-limit".into(), format!("retransmitted {} answered with PUBREC although {} unacknowledged QoS>0 publishes ({:?}) already reach the locally announced Receive Maximum {}", decoded.as_ref().unwrap().short(), self.inn.len(), self.inn, l));
+                                }
+                            }
+                            self.inn.insert(*i);
                         }
                         if let Some(a) = props.iter().find_map(|p| if let (P_TA, PVal::U16(a)) = (p.id, &p.val) { Some(*a) } else { None }) {
                             if !topic.is_empty() && a >= 1 && a <= self.tam_local {
